@@ -30,42 +30,77 @@ class Model:
                 "mand": m[1] if m[0] == "lit" else None}
 
     def parens(self, parent, child, pos):
-        """Does the printer parenthesise `child` at position pos ('inner' | 'lhs' | 'rhs') under `parent`?"""
-        cond = self.conds[pos]
-        return eval_cond(cond, {"self": self.row(parent), pos: self.row(child)})
+        """Does the printer parenthesise `child` at position pos ('inner' | 'lhs' | 'rhs') under `parent`?  The write of the operand whose
+        whole path condition holds for this (parent, child) row decides."""
+        env = {"self": self.row(parent), pos: self.row(child)}
+        taken = []
+        for conds, par in self.conds[pos]:
+            ok = True
+            for c, pol in conds:
+                v = eval_path_cond(c, env)
+                if v is None:
+                    raise AnalysisGap("path condition outside the fragment: %r" % (c,))
+                if bool(v) != bool(pol):
+                    ok = False
+                    break
+            if ok:
+                taken.append(par)
+        if len(set(taken)) != 1:
+            raise AnalysisGap("the operand `%s` is written %d times (or with both shapes) for one (parent, child) row" % (pos, len(taken)))
+        return taken[0]
 
 
 def generic_conditions(fx):
-    """The conditions under which fmt_unary / fmt_binary write `({x})` rather than `{x}`."""
+    """For each operand of fmt_unary / fmt_binary: the writes of that operand as (path condition, in parentheses?)."""
+    import re as _re
     out = {}
     for fn, names in (("Precedence::fmt_unary", ("inner",)), ("Precedence::fmt_binary", ("lhs", "rhs"))):
         b = fx.fn(fn)
         ev = sym.Eval(fx, inline_depth=0)
         ev.function(b)
-        import re as _re
         for n in names:
-            # writes of this operand, with and without parentheses: identified by the argument, not by the name used inside the template
-            # (the write may sit in an extracted helper, whose parameters are substituted by inlining)
+            # writes of this operand, identified by the argument, not by the name used inside the template (the write may sit in an extracted
+            # helper, whose parameters are substituted by inlining)
             def is_operand(o):
                 return o[2][0] == "write" and len(o[2][2]) == 1 and o[2][2][0] == ("param", n)
-            hit = [o for o in ev.out if is_operand(o) and _re.fullmatch(r"\(\{\w*\}\)", o[2][1])]
-            neg = [o for o in ev.out if is_operand(o) and _re.fullmatch(r"\{\w*\}", o[2][1])]
-            conds = set()
-            ok = bool(hit) and len(hit) == len(neg)
-            for h in hit:
-                if not h[0] or h[0][-1][1] is not True:
-                    ok = False
-                    break
-                c = h[0][-1][0]
-                prefix = h[0][:-1]
-                if not any(g[0] == prefix + ((c, False),) for g in neg):
-                    ok = False
-                    break
-                conds.add(c)
-            if not ok or len(conds) != 1:
-                raise AnalysisGap("%s: parenthesisation condition for `%s` not of the form if C {({x})} else {x}" % (fn, n))
-            out[n] = conds.pop()
+            rows = []
+            for o in ev.out:
+                if not is_operand(o):
+                    continue
+                if _re.fullmatch(r"\(\{\w*\}\)", o[2][1]):
+                    rows.append((o[0], True))
+                elif _re.fullmatch(r"\{\w*\}", o[2][1]):
+                    rows.append((o[0], False))
+                else:
+                    raise AnalysisGap("%s writes `%s` with the template %r" % (fn, n, o[2][1]))
+            if not rows or not any(p_ for _, p_ in rows) or not any(not p_ for _, p_ in rows):
+                raise AnalysisGap("%s: no parenthesised / bare write of `%s` found" % (fn, n))
+            out[n] = rows
     return out
+
+
+def eval_path_cond(c, env):
+    """value of one path-condition entry: a boolean term, or ('arm', scrutinee, pattern key) of a match"""
+    if c[0] == "arm":
+        sc, key = c[1], c[2]
+        if sc[0] == "call" and sc[1].endswith("::cmp") and len(sc[2]) == 2:
+            a, b_ = eval_cond(sc[2][0], env), eval_cond(sc[2][1], env)
+            if a is None or b_ is None:
+                return None
+            o = "Less" if a < b_ else ("Greater" if a > b_ else "Equal")
+            alts = [k.split("::")[-1] for k in key.split(" | ")]
+            return o in alts or "_" in alts
+        v = eval_cond(sc, env)
+        if isinstance(v, bool):
+            return (key == "true") == v if key in ("true", "false") else None
+        if isinstance(v, str):
+            alts = [k.split("::")[-1] for k in key.split(" | ")]
+            return v in alts or "_" in alts
+        return None
+    try:
+        return eval_cond(c, env)
+    except AnalysisGap:
+        raise
 
 
 def eval_cond(c, env):
@@ -94,6 +129,28 @@ def eval_cond(c, env):
         return c[1].split("::")[1]
     if k == "op" and c[1] == "Not":
         return not eval_cond(c[2], env)
+    if k == "lit":
+        return c[1]
+    if k == "if":
+        return eval_cond(c[2], env) if eval_cond(c[1], env) else eval_cond(c[3], env)
+    if k == "match":
+        sc = c[1]
+        if sc[0] == "call" and sc[1].endswith("::cmp") and len(sc[2]) == 2:
+            a, b_ = eval_cond(sc[2][0], env), eval_cond(sc[2][1], env)
+            if a is None or b_ is None:
+                raise AnalysisGap("table value missing for %r" % (sc,))
+            v = "Less" if a < b_ else ("Greater" if a > b_ else "Equal")
+        else:
+            v = eval_cond(sc, env)
+            if isinstance(v, bool):
+                v = "true" if v else "false"
+        for arm in c[2]:
+            if len(arm) != 2:
+                raise AnalysisGap("guarded arm in a parenthesisation condition")
+            alts = [k_.split("::")[-1] for k_ in arm[0].split(" | ")]
+            if v in alts or "_" in alts:
+                return eval_cond(arm[1], env)
+        raise AnalysisGap("no arm for %r" % (v,))
     raise AnalysisGap("condition term outside the fragment: %r" % (c,))
 
 
